@@ -1,7 +1,7 @@
 //! C10 CRC framing appends the right checksum and never accepts a wrong one.
 
-use crate::checks::c03::{map_err, A_DEC};
-use crate::checks::c05::value_corpus;
+use crate::checks::c03::A_DEC;
+use crate::checks::c05::{real_decode, real_plain, value_corpus};
 use crate::dynval::{with_shape, Dyn};
 use crate::framing::*;
 use crate::rt::{hex, trap, with_arena, Ctx};
@@ -10,24 +10,30 @@ use serde_json::json;
 use std::sync::atomic::{AtomicU64, Ordering};
 use vmodel::glue::AsData;
 use vmodel::shape::*;
-use vmodel::spec::{spec_decode, spec_encode, ErrKind};
+use vmodel::spec::{spec_decode, spec_encode};
 
 #[derive(Debug, PartialEq)]
 enum Want {
     Ok(Val, usize),
-    /// spec decoder rejects the payload
-    Payload(ErrKind),
+    /// plain decoding rejects the payload (with this error)
+    Payload(postcard::Error),
     /// payload fine, fewer than W bytes follow
     ShortChecksum,
     BadCrc,
 }
 
-fn oracle(a: CrcAlgo, s: &Shape, x: &[u8]) -> Option<Want> {
+/// inputs claiming > 4096 zero-width elements are never executed (C04's carve-out)
+fn dangerous(s: &Shape, x: &[u8]) -> bool {
     let sd = spec_decode(s, x);
-    if sd.budget_exceeded || sd.max_zero_width_claim > 4096 {
+    sd.budget_exceeded || sd.max_zero_width_claim > 4096
+}
+
+fn oracle(a: CrcAlgo, s: &Shape, x: &[u8]) -> Option<Want> {
+    if dangerous(s, x) {
         return None;
     }
-    Some(match sd.result {
+    // "the bytes it consumed for the value": what the real PLAIN decoder consumes for the value
+    Some(match real_decode(s, x) {
         Err(k) => Want::Payload(k),
         Ok((v, c)) => {
             let w = a.wire_bytes();
@@ -78,8 +84,8 @@ fn compare(ctx: &Ctx, a: CrcAlgo, s: &Shape, x: &[u8], order: u64, must_reject: 
             }
         }
         (Want::Payload(k), Err(e)) => {
-            if *k != ErrKind::Other && map_err(e) != *k && *e != postcard::Error::DeserializeBadCrc {
-                ctx.violation("crc-payload-error-kind", format!("{:?} vs spec {:?}", e, k), order, case());
+            if e != k {
+                ctx.violation("crc-payload-error-kind", format!("{:?}, plain decoding fails with {:?}", e, k), order, case());
             }
         }
         (Want::ShortChecksum, Err(_)) => {}
@@ -114,7 +120,10 @@ pub fn run(ctx: &Ctx) {
     // (1) encode side + decode of valid frames + every single-bit flip
     corpus.par_iter().enumerate().for_each(|(si, (s, vals))| {
         for (vi, v) in vals.iter().enumerate() {
-            let plain = spec_encode(v).unwrap();
+            let plain = match real_plain(v) {
+                Some(p) => p,
+                None => continue,
+            };
             let d = AsData(v);
             for (ai, a) in all_algos.iter().enumerate() {
                 let f = Framing::Crc(*a);
@@ -174,7 +183,7 @@ pub fn run(ctx: &Ctx) {
                             x[bit / 8] ^= 1 << (bit % 8);
                             let in_checksum = bit / 8 >= plain.len();
                             // a payload flip must be rejected when the decoded length is unchanged
-                            let same_len = matches!(spec_decode(s, &x).result, Ok((_, c)) if c == plain.len());
+                            let same_len = !dangerous(s, &x) && matches!(real_decode(s, &x), Ok((_, c)) if c == plain.len());
                             let must = if in_checksum { Some("bit flip in checksum") } else if same_len { Some("bit flip in payload, decoded length unchanged") } else { None };
                             flips.fetch_add(1, Ordering::Relaxed);
                             if let Some(acc) = compare(ctx, *a, s, &x, order | 2, must) {
@@ -230,7 +239,7 @@ pub fn run(ctx: &Ctx) {
     let mut pool: Vec<(Shape, Vec<u8>)> = vec![];
     for (s, vals) in &pool_corpus {
         for v in vals.iter().take(2) {
-            let p = spec_encode(v).unwrap();
+            let p = real_plain(v).unwrap_or_else(|| spec_encode(v).unwrap());
             if !p.is_empty() && p.len() <= 16 {
                 pool.push((s.clone(), p));
             }
@@ -279,7 +288,7 @@ pub fn run(ctx: &Ctx) {
                         let pbits = plain.len() * 8;
                         let in_checksum = (off as usize) >= pbits;
                         let in_payload = (off + *b) as usize <= pbits;
-                        let same_len = matches!(spec_decode(s, &x).result, Ok((_, c)) if c == plain.len());
+                        let same_len = !dangerous(s, &x) && matches!(real_decode(s, &x), Ok((_, c)) if c == plain.len());
                         // the property names corruptions confined to the checksum and bursts of the payload;
                         // a burst straddling the boundary is only compared with the general oracle
                         let must = if in_checksum {
